@@ -286,7 +286,7 @@ class Vector():
 		if length:
 			assert isinstance(length, int)
 			dtype = infer_dtype([default_element])
-			if typesafe:
+			if typesafe and default_element is not None:
 				dtype = dtype.with_nullable(False)
 			return cls([default_element for _ in range(length)], dtype=dtype)
 		dtype = infer_dtype([default_element]) if default_element is not None else DataType(object)
